@@ -617,7 +617,7 @@ static inline void buildEnum()
                while((p = line.find("%T")) != std::string::npos) line.replace(p, 2, t);
                while((p = line.find("%V")) != std::string::npos) line.replace(p, 2, v);
                std::string ty = t;
-               if(ty.find(':') != std::string::npos && q % 7 == 0) line.replace(line.find(':'), 1, " : ");
+               if(line.find(':') != std::string::npos && q % 7 == 0) line.replace(line.find(':'), 1, " : ");
                for(int en = SET_FILE; en <= SET_STR; en++)
                   E.push_back(Item{en, 0, "settings-grammar", "settings line", [line, en]()
                {
